@@ -134,7 +134,12 @@ func c12Flat(c *Case) {
 
 // anyNodeSetExpr draws a node-set expression from every generator of the harness.
 func anyNodeSetExpr(g *xgen.G, env *xgen.Env) xref.Expr {
-	switch g.Intn(9) {
+	switch g.Intn(12) {
+	case 9, 10:
+		// steps with stacked predicates (boolean then positional and the other way round)
+		return g.StackedPath(env)
+	case 11:
+		return g.FilterStartPath(env)
 	case 7:
 		// reverse() is a node-set expression too: count(reverse(x)), reverse(reverse(x)), (reverse(x))
 		return xref.Call{Name: "reverse", Args: []xref.Expr{g.FreePath(1+g.Intn(2), env.Names)}}
@@ -282,6 +287,15 @@ func c12Protocol(c *Case) {
 		if cv.Kind != "number" || cv.F != float64(len(sel.seq)) {
 			bad("COUNT-DIFFERS-FROM-SEQUENCE-LENGTH", map[string]interface{}{"count_expr": csrc, "count": cv.String(), "sequence": xdoc.Labels(sel.seq)})
 			return
+		}
+		// ... every time the same compiled count(E) is asked (the argument query lives in the function's closure)
+		if c.Index%2 == 0 {
+			for round := 2; round <= 3; round++ {
+				if cv2 := c.RunEvaluate(cce, ctx); cv2.Kind != "number" || cv2.F != float64(len(sel.seq)) {
+					bad("COUNT-DIFFERS-FROM-SEQUENCE-LENGTH", map[string]interface{}{"count_expr": csrc, "count": cv2.String(), "evaluation": round, "sequence": xdoc.Labels(sel.seq)})
+					return
+				}
+			}
 		}
 	}
 	// reverse(E) yields the sequence reversed
